@@ -641,15 +641,23 @@ theorem startBwd_le (s : WS) (pos : Nat) (big : Bool) (hp : pos ≤ s.len) : sta
             | none => simp
             | some w => have := findDown_lt _ _ _ hf; simp only; split <;> omega
 
-/-- Every position a word motion produces lies inside the text. -/
-theorem evalWord_in_bounds (s : WS) (cur : Nat) (k : WKind) (big : Bool) (count : Nat) (change : Bool) :
-    (∃ p, evalWord s cur k big count change = .on p ∧ p ≤ s.len) ∨
-    (∃ p, evalWord s cur k big count change = .onto p ∧ p ≤ s.len) := by
+/-- Every position a word motion produces lies inside the text (`ge` as an operator motion yields an
+ordered range inside the text). -/
+theorem evalWord_in_bounds (s : WS) (cur : Nat) (k : WKind) (big : Bool) (count : Nat) (change sel : Bool) (hc : cur ≤ s.len) :
+    (∃ p, evalWord s cur k big count change sel = .on p ∧ p ≤ s.len) ∨
+    (∃ p, evalWord s cur k big count change sel = .onto p ∧ p ≤ s.len) ∨
+    (∃ a b, evalWord s cur k big count change sel = .inclusive a b ∧ a ≤ b ∧ b ≤ s.len) := by
   unfold evalWord
   cases k
   · exact Or.inl ⟨_, rfl, Nat.min_le_right _ _⟩
-  · exact Or.inr ⟨_, rfl, Nat.min_le_right _ _⟩
+  · exact Or.inr (Or.inl ⟨_, rfl, Nat.min_le_right _ _⟩)
   · exact Or.inl ⟨_, rfl, Nat.min_le_right _ _⟩
+  · cases sel
+    · refine Or.inr (Or.inr ⟨_, _, rfl, ?_, ?_⟩)
+      · unfold ordered; split <;> simp <;> omega
+      · have := Nat.min_le_right (dispatchWord s WKind.endBwd big (change && WKind.endBwd == WKind.startFwd) count cur) s.len
+        unfold ordered; split <;> simp <;> omega
+    · exact Or.inl ⟨_, rfl, Nat.min_le_right _ _⟩
 
 /-! ## Non-vacuity: "ab  cd.e" classes -/
 example : startFwd ⟨[2, 2, 1, 1, 2, 2, 0, 2]⟩ 0 false false = 4 := by decide
@@ -658,5 +666,197 @@ example : startFwd ⟨[2, 2, 1, 1, 2, 2, 0, 2]⟩ 4 true false = 8 := by decide
 example : endFwd ⟨[2, 2, 1, 1, 2, 2, 0, 2]⟩ 0 false = 1 := by decide
 example : startBwd ⟨[2, 2, 1, 1, 2, 2, 0, 2]⟩ 5 false = 4 := by decide
 example : evalWord ⟨[2, 2, 1, 1, 2, 2, 0, 2]⟩ 0 .startFwd false 1 true = .on 2 := by decide
+
+end Vicut.Words
+
+/-! # Character search, cursor placement after a motion, word text objects -/
+namespace Vicut.Motions
+open Vicut
+
+/-- **`f<c>`** lands on an occurrence of the character, to the right of the cursor (or fails). -/
+theorem f_lands_on_char (gs : List Gr) (cur : Nat) (excl : Bool) (ch : Gr) (p : Nat)
+    (h : evalCharSearch gs cur excl true false ch 1 = .onto p) : gs[p]? = some ch ∧ p < gs.length := by
+  unfold evalCharSearch at h
+  split at h
+  · rename_i q hq
+    cases h
+    simp only [charSearchGo, ↓reduceIte, Bool.false_eq_true] at hq
+    split at hq
+    · exact absurd hq (by simp)
+    · rename_i i hi
+      simp at hq
+      have hm := List.mem_of_find?_eq_some hi
+      have hp := List.find?_some hi
+      rw [List.mem_range'_1] at hm
+      have hil : i < gs.length := by omega
+      have hmin : min i (if excl = true then gs.length - 1 else gs.length) = i := by split <;> omega
+      rw [hmin] at hq
+      subst hq
+      exact ⟨by simpa using hp, hil⟩
+  · exact absurd h (by simp)
+
+/-- **`F<c>`** lands on an occurrence of the character, to the left of the cursor (or fails). -/
+theorem F_lands_on_char (gs : List Gr) (cur : Nat) (excl : Bool) (ch : Gr) (p : Nat)
+    (h : evalCharSearch gs cur excl false false ch 1 = .onto p) : gs[p]? = some ch ∧ p < cur := by
+  unfold evalCharSearch at h
+  split at h
+  · rename_i q hq
+    cases h
+    simp only [charSearchGo, Bool.false_eq_true, ↓reduceIte] at hq
+    split at hq
+    · exact absurd hq (by simp)
+    · rename_i i hi
+      simp at hq
+      have hm := List.mem_of_find?_eq_some hi
+      have hp := List.find?_some hi
+      rw [List.mem_reverse, List.mem_range] at hm
+      have hp' : gs[i]? = some ch := by simpa using hp
+      have hil : i < gs.length := by
+        rcases List.getElem?_eq_some_iff.mp hp' with ⟨h1, _⟩; exact h1
+      have hmin : min i (if excl = true then gs.length - 1 else gs.length) = i := by split <;> omega
+      rw [hmin] at hq
+      subst hq
+      exact ⟨hp', by omega⟩
+  · exact absurd h (by simp)
+
+/-- `F` sees the character immediately before the cursor (it did not before fix 602f313). -/
+example : evalCharSearch [['a'], ['b']] 1 true false false ['a'] 1 = .onto 0 := by decide
+example : evalCharSearch [['a'], ['x'], ['b']] 2 true false false ['a'] 1 = .onto 0 := by decide
+
+end Vicut.Motions
+
+namespace Vicut.Motions
+open Vicut
+
+theorem clampTo_le (v len : Nat) (excl : Bool) : clampTo v len excl ≤ (if excl then len - 1 else len) := Nat.min_le_right _ _
+
+/-- **A motion command leaves the cursor under its clamp**, whatever `MotionKind` the motion engine
+produced (in range or not), provided it was under the clamp before. -/
+theorem moveCursor_under_clamp (s : MS) (mk : MK) (sc : Option Nat) (hc : s.cur ≤ (if s.excl then s.max - 1 else s.max)) :
+    moveCursor s mk sc ≤ (if s.excl then s.max - 1 else s.max) := by
+  unfold moveCursor
+  cases mk with
+  | to p =>
+    simp only
+    split
+    · have := clampTo_le p s.max s.excl; omega
+    · exact clampTo_le _ _ _
+  | on p => exact clampTo_le _ _ _
+  | onto p => exact clampTo_le _ _ _
+  | inclusive a b => exact clampTo_le _ _ _
+  | exclusive a b => exact clampTo_le _ _ _
+  | line n => simp only; split <;> first | exact clampTo_le _ _ _ | exact hc
+  | lineRange a b => simp only; split <;> first | exact clampTo_le _ _ _ | exact hc
+  | lineOffset k =>
+    simp only
+    split <;> (split <;> first | exact clampTo_le _ _ _ | (split <;> first | exact clampTo_le _ _ _ | exact hc))
+  | blockRange ws => simp only; split <;> first | exact clampTo_le _ _ _ | exact hc
+  | inclTarget a b c => exact clampTo_le _ _ _
+  | exclTarget a b c => exact clampTo_le _ _ _
+  | lines l => exact hc
+  | null => exact hc
+
+/-- ... and, after the epilogue, never on the terminator of a non-empty line under the exclusive clamp. -/
+theorem cursorAfterMotion_ok (s : MS) (mk : MK) (sc : Option Nat) (hc : s.cur ≤ (if s.excl then s.max - 1 else s.max)) :
+    cursorAfterMotion s mk sc ≤ (if s.excl then s.max - 1 else s.max) ∧
+    (s.excl = true → ¬ (s.isNlAt (cursorAfterMotion s mk sc) = true ∧ cursorAfterMotion s mk sc > 0 ∧
+        s.isNlAt (cursorAfterMotion s mk sc - 1) = false)) := by
+  have hm := moveCursor_under_clamp s mk sc hc
+  unfold cursorAfterMotion
+  simp only
+  split
+  · rename_i hcond
+    simp only [Bool.and_eq_true, decide_eq_true_eq, Bool.not_eq_true'] at hcond
+    refine ⟨by omega, fun _ h => ?_⟩
+    -- we stepped onto v-1, which is not a newline
+    have := hcond.2
+    rw [this] at h
+    exact absurd h.1 (by simp)
+  · rename_i hcond
+    refine ⟨hm, fun he h => hcond ?_⟩
+    simp only [Bool.and_eq_true, decide_eq_true_eq, Bool.not_eq_true']
+    exact ⟨⟨⟨he, h.1⟩, h.2.1⟩, h.2.2⟩
+
+end Vicut.Motions
+
+namespace Vicut.Words
+open Vicut
+
+/-- **`e` / `E` never move backwards** and stay inside the text. -/
+theorem endFwd_ge (s : WS) (pos : Nat) (big : Bool) (hp : pos ≤ s.len) : pos ≤ endFwd s pos big ∧ endFwd s pos big ≤ s.len := by
+  unfold endFwd
+  split
+  · omega
+  · split
+    · omega
+    · cases big <;> simp only [Bool.false_eq_true, ↓reduceIte]
+      · -- normal words
+        cases hb : (!s.ws pos && s.otherOrWs (pos + 1) (s.c pos)) <;> simp only [Bool.false_eq_true, ↓reduceIte]
+        · cases hw : s.ws pos <;> simp only [Bool.false_eq_true, ↓reduceIte]
+          · cases hf : findUp (fun i => s.otherOrWs i (s.c pos)) (pos + 1) s.len with
+            | none => simp; omega
+            | some w => have := findUp_spec _ _ _ _ hf; simp only; omega
+          · cases hj : findUp (fun i => !s.ws i) (pos + 1) s.len with
+            | none => simp; omega
+            | some j =>
+              have hjs := findUp_spec _ _ _ _ hj
+              simp only [Option.map_some]
+              cases hf : findUp (fun i => s.otherOrWs i (s.c j)) (j + 1) s.len with
+              | none => simp; omega
+              | some w => have := findUp_spec _ _ _ _ hf; simp only; omega
+        · cases hw : s.ws (pos + 1) <;> simp only [Bool.false_eq_true, ↓reduceIte]
+          · cases hf : findUp (fun i => s.otherOrWs i (s.c (pos + 1))) (pos + 2) s.len with
+            | none => simp; omega
+            | some w => have := findUp_spec _ _ _ _ hf; simp only; omega
+          · cases hj : findUp (fun i => !s.ws i) (pos + 2) s.len with
+            | none => simp; omega
+            | some j =>
+              have hjs := findUp_spec _ _ _ _ hj
+              simp only [Option.map_some]
+              cases hf : findUp (fun i => s.otherOrWs i (s.c j)) (j + 1) s.len with
+              | none => simp; omega
+              | some w => have := findUp_spec _ _ _ _ hf; simp only; omega
+      · -- big words
+        cases hb : (!s.ws pos && s.ws (pos + 1)) <;> simp only [Bool.false_eq_true, ↓reduceIte]
+        · cases hw : s.ws pos <;> simp only [Bool.false_eq_true, ↓reduceIte]
+          · cases hf : findUp (fun i => s.ws i) (pos + 1) s.len with
+            | none => simp; omega
+            | some w => have := findUp_spec _ _ _ _ hf; simp only; omega
+          · cases hj : findUp (fun i => !s.ws i) (pos + 1) s.len with
+            | none => simp; omega
+            | some j =>
+              have hjs := findUp_spec _ _ _ _ hj
+              simp only [Option.map_some]
+              cases hf : findUp (fun i => s.ws i) (j + 1) s.len with
+              | none => simp; omega
+              | some w => have := findUp_spec _ _ _ _ hf; simp only; omega
+        · cases hw : s.ws (pos + 1) <;> simp only [Bool.false_eq_true, ↓reduceIte]
+          · cases hf : findUp (fun i => s.ws i) (pos + 2) s.len with
+            | none => simp; omega
+            | some w => have := findUp_spec _ _ _ _ hf; simp only; omega
+          · cases hj : findUp (fun i => !s.ws i) (pos + 2) s.len with
+            | none => simp; omega
+            | some j =>
+              have hjs := findUp_spec _ _ _ _ hj
+              simp only [Option.map_some]
+              cases hf : findUp (fun i => s.ws i) (j + 1) s.len with
+              | none => simp; omega
+              | some w => have := findUp_spec _ _ _ _ hf; simp only; omega
+
+/-- **`iw` / `aw` / `iW` / `aW` contain the cursor**: the start is at or before it, the end at or after it,
+both inside the text. -/
+theorem textObjWord_contains_cursor (s : WS) (cur : Nat) (big : Bool) (hc : cur ≤ s.len) :
+    (textObjWord s cur big).1 ≤ cur ∧ cur ≤ (textObjWord s cur big).2 ∧ (textObjWord s cur big).2 ≤ s.len := by
+  unfold textObjWord
+  refine ⟨?_, ?_, ?_⟩
+  · simp only; split
+    · exact Nat.le_refl _
+    · exact startBwd_le s cur big hc
+  · simp only; split
+    · exact Nat.le_refl _
+    · exact (endFwd_ge s cur big hc).1
+  · simp only; split
+    · exact hc
+    · exact (endFwd_ge s cur big hc).2
 
 end Vicut.Words
